@@ -223,6 +223,7 @@ class C05(vlib.Driver):
     def generate(self, tier, rng):
         cases = []
         quick = tier == "quick"
+        self.shard = 40 if quick else 12      # chains make large terms: spread them over more coqc processes
         # A. boundary-complete enumeration (light agents): every weak ordering of the means for n <= 4,
         #    every tournament draw tuple, both elitism settings
         self.exhaustive = True
@@ -240,7 +241,7 @@ class C05(vlib.Driver):
                                       "pop": [{"index": 3 * i + 1, "fitness": f} for i, f in enumerate(fits)],
                                       "gens": [{"draws": [list(x) for x in tuples] + self.gen_draws(rng, n, t, 2), "newfit": []}]})
         # B. seeded single selections on real DQN agents
-        nb = 80 if quick else 500
+        nb = 80 if quick else 300
         for _ in range(nb):
             n = rng.choice([1, 2, 2, 3, 3, 4, 5, 6, 8]) if quick else rng.choice([1, 2, 3, 4, 5, 6, 8, 10, 12])
             p = rng.choice([1, 2, 3, n, n, n, n + 1, 8]) if quick else rng.choice([1, 2, n, n, n + 2, 12])
@@ -250,14 +251,14 @@ class C05(vlib.Driver):
                           "pop": [{"index": ix, "fitness": f} for ix, f in zip(self.rand_indices(rng, n), self.rand_fitness(rng, n, w))],
                           "gens": [{"draws": self.gen_draws(rng, n, t, p + 2), "newfit": []}]})
         # C. chains of generations on real agents, half of them through tournament_selection_and_mutation
-        nc, G = (4, 6) if quick else (20, 20)
+        nc, G = (4, 6) if quick else (12, 15)
         for ci in range(nc):
             n = rng.choice([2, 3, 4, 6])
             p = rng.choice([n, n, 4, 6])
             t, w = rng.randint(1, 4), rng.randint(1, 4)
             cases.append(self.chain_case(rng, "dqn", "utils" if ci % 2 == 0 else "select", n, p, t, w, rng.random() < 0.7, G))
         # D. long chains, light agents (sizes where NumPy switches sort algorithm in the thorough tier)
-        nd, G = (16, 14) if quick else (100, 25)
+        nd, G = (16, 14) if quick else (60, 15)
         for ci in range(nd):
             n = rng.randint(2, 8) if quick else rng.choice([2, 5, 8, 12, 16, 17, 20, 24])
             p = rng.choice([n, n, max(1, n - 1), n + 1])
@@ -265,7 +266,7 @@ class C05(vlib.Driver):
             cases.append(self.chain_case(rng, "lite", "select", n, p, t, w, rng.random() < 0.7, G))
         # E. non-dyadic fitness values (order checked against exact rationals per case), light agents;
         #    populations beyond 16 where the sort is not an insertion sort
-        ne = 60 if quick else 1200
+        ne = 60 if quick else 800
         made = 0
         while made < ne:
             n = rng.choice([2, 3, 5, 8, 12, 17, 24]) if quick else rng.choice([2, 3, 5, 8, 12, 17, 24, 33, 48])
@@ -581,6 +582,10 @@ class C05(vlib.Driver):
             ms = [frac_mean(a["fitness"], cfg["w"]) for a in pre]
             if ms.count(max(ms)) > 1:
                 labs.append("branch:tie-at-the-top")
+                # a stable argsort gives the best rank to the LAST of the tied agents
+                stable_pick = max(i for i, m in enumerate(ms) if m == max(ms))
+                if rec["elite"]["parent"] != stable_pick:
+                    labs.append("branch:top-tie-broken-unlike-a-stable-sort")
             if len(set(ms)) < len(ms):
                 labs.append("branch:some-tie")
             if any(x < 0 for a in pre for x in a["fitness"]):
@@ -623,6 +628,25 @@ class C05(vlib.Driver):
             c = copy.deepcopy(case)
             c["gens"] = c["gens"][:1]
             yield c
+
+
+# A coqc process that dies without any output was killed from outside (OOM killer on a loaded box,
+# wall-clock timeout): re-evaluate just those cases once, in smaller files, before calling it a
+# correspondence error.  (Wrapper around the shared runner; vlib itself is not modified.)
+_run_coq_cases = vlib.run_coq_cases
+
+
+def _run_coq_cases_retry(pid, preamble, terms, shard=250, tag="cases", timeout=900):
+    failing, errors = _run_coq_cases(pid, preamble, terms, shard=shard, tag=tag, timeout=timeout)
+    if errors and all(not e["log"].strip() for e in errors):
+        ids = {i for e in errors for i in e["ids"]}
+        sub = [(cid, t) for cid, t in terms if cid in ids]
+        f2, errors = _run_coq_cases(pid, preamble, sub, shard=max(1, shard // 3), tag=tag + "_retry", timeout=timeout)
+        failing = sorted(set(failing) | set(f2))
+    return failing, errors
+
+
+vlib.run_coq_cases = _run_coq_cases_retry
 
 
 if __name__ == "__main__":
